@@ -183,7 +183,8 @@ def run(repo, res):
                 fn = facts.func_of(n)
                 popen_sites.append((fn.qual if fn else '<module>', n))
     res.count('popen_sites', len(popen_sites), floor=1)
-    launchers = {q.split('.')[-1] for q, _ in popen_sites}
+    entry_points = set(public) | set(starter_targets)
+    launchers = launcher_family(methods, entry_points)
     for q, n in popen_sites:
         res.check('C16-R3', 'Popen in a method of Environment', q.startswith('Environment.'), REMOTE, n.lineno,
                   'the server process may be launched only by a method of Environment, every call of which is a checked launch '
@@ -195,6 +196,8 @@ def run(repo, res):
             f = unparse(c.func)
             if not (f.startswith('self.') and f[5:] in launchers):
                 continue
+            if mname in launchers and mname not in entry_points:
+                continue          # a helper of the launch itself (the route into it is what is checked)
             nroutes += 1
             key = 'route %s -> %s' % (mname, f[5:])
             if mname in starter_targets:
@@ -366,13 +369,57 @@ def conn_idiom_holds(methods):
     r = methods.get('run')
     if r is None:
         return False
-    launchers = {name for name, m in methods.items()
-                 if any(unparse(c.func).split('.')[-1] == 'Popen' for c in calls_in(m))}
+    launchers = launcher_family(methods, {n for n in methods if not n.startswith('_')})
     for c in calls_in(r):
         f = unparse(c.func)
         if f.startswith('self.') and f[5:] in launchers:
             return holds_lock(c, r) and dominated_by_conn_absent(c, r)
     return False
+
+
+def test_text(test):
+    """The text of a condition with the calls of predicate helpers of the class (a method whose body is one `return <expr>`, e.g.
+    `def _connected(self): return hasattr(self, 'conn')`) replaced by that expression."""
+    import re as _re
+    t = unparse(test)
+    for _ in range(3):
+        changed = False
+        for name, m in METHODS.items():
+            body = [x for x in m.body if not (isinstance(x, ast.Expr) and isinstance(x.value, ast.Constant))]
+            if len(body) == 1 and isinstance(body[0], ast.Return) and body[0].value is not None and len(m.args.args) == 1:
+                call_txt = 'self.%s()' % name
+                if call_txt in t:
+                    t = t.replace(call_txt, '(%s)' % unparse(body[0].value))
+                    changed = True
+        if not changed:
+            break
+    t = _re.sub(r'^not \((.*)\)$', r'not \1', t)
+    return t
+
+
+def launcher_family(methods, entry_points=()):
+    """The launch routine: the method that calls Popen and the private methods that call a method of the routine unconditionally
+    (the call is not under an if / loop / with of their own) - `_run` calling `_launch(addr)` is one routine with it; `run`, which
+    calls `_run` only under its lock and its test, is a *route* into the routine."""
+    fam = {name for name, m in methods.items() if any(unparse(c.func).split('.')[-1] == 'Popen' for c in calls_in(m))}
+
+    def unconditional(call, fn):
+        child, p = call, getattr(call, '_parent', None)
+        while p is not None and p is not fn:
+            if isinstance(p, (ast.If, ast.While, ast.For, ast.With, ast.ExceptHandler, ast.IfExp, ast.BoolOp)):
+                return False
+            child, p = p, getattr(p, '_parent', None)
+        return True
+    changed = True
+    while changed:
+        changed = False
+        for name, m in methods.items():
+            if name in fam or name in entry_points or not name.startswith('_'):
+                continue
+            if any(unparse(c.func).startswith('self.') and unparse(c.func)[5:] in fam and unconditional(c, m) for c in calls_in(m)):
+                fam.add(name)
+                changed = True
+    return fam
 
 
 def dominated_by_conn_absent(call, fn):
@@ -381,7 +428,7 @@ def dominated_by_conn_absent(call, fn):
     child, p = call, getattr(call, '_parent', None)
     while p is not None and p is not fn:
         if isinstance(p, ast.If):
-            t = unparse(p.test)
+            t = test_text(p.test)
             in_body = any(child is s for s in p.body)
             if 'conn' in t and 'hasattr' in t:
                 neg = t.startswith('not ')
@@ -402,7 +449,7 @@ def early_return_guard(node, fn, pred, need_lock=False):
                 for s in block:
                     if s is st:
                         break
-                    if isinstance(s, ast.If) and pred(unparse(s.test)) and always_exits(s.body, (ast.Return,)) \
+                    if isinstance(s, ast.If) and pred(test_text(s.test)) and always_exits(s.body, (ast.Return,)) \
                             and (not need_lock or holds_lock(s, fn)):
                         return True
         st = parent if isinstance(parent, ast.stmt) else None
